@@ -114,6 +114,11 @@ def run(tier, seed, replay=None):
                                   "give different projected outcomes" % (det[0]["variant"], det[0]["hashseed"], r["variant"], r["hashseed"]),
                                   {"jobs": jobmap[key.split(":")[0]], "a": det[0], "b": r})
                     break
+    for r in results:
+        if r["kind"] == "scoring_float" and not r["trace"]["from_exact"]:
+            res.violation("scoring_float:NotTheFloatOfTheExactTally", "a to_float=True tally is not float(exact tally): accumulated in floating point (order dependent)",
+                          {"jobs": jobmap[r["key"].split(":")[0]], "result": r})
+            break
     # (b) each projected trace is the behaviour the specification prescribes for the abstract input
     def uniq(kind):
         seen, out = set(), []
